@@ -13,7 +13,8 @@ os.makedirs(dst, exist_ok=True)
 for f in os.listdir(src):
     if f in ('patch.diff', 'demo.sh', 'demo_test.diff', 'notes.md'):
         shutil.copy(os.path.join(src, f), dst)
-wt = '/tmp/wt/confirm-' + name
+import hashlib
+wt = '/tmp/wt/confirm-' + hashlib.md5(name.encode()).hexdigest()[:8]   # (not the name: a path containing "user" selects the user mode of the binary built there)
 subprocess.run(['git', '-C', '/repo', 'worktree', 'remove', '--force', wt], capture_output=True)
 subprocess.run(['git', '-C', '/repo', 'worktree', 'add', '-q', '--detach', wt, 'HEAD'], check=True)
 meta = dict(name=name, property=prop, needs_to_manifest=needs, ran=[])
